@@ -6,7 +6,7 @@ from ..engine import Finding
 
 ID = 'C18'
 TITLE = 'decorators are transparent: same results, same signature, no double wrapping'
-LEAN_FILES = ['Basic', 'Bind', 'Cache', 'Wrap', 'BindDriver', 'Cmp', 'BindLemmas', 'CacheLemmas', 'WrapLemmas', 'ResDec', 'C18']
+LEAN_FILES = ['Basic', 'Bind', 'Cache', 'Wrap', 'BindDriver', 'Cmp', 'BindLemmas', 'CacheLemmas', 'CacheKeyLemmas', 'WrapLemmas', 'ResDec', 'C18']
 RULE = ('distinct protocol lines on which the implementation returned a value: a (signature, call) pair bound / called / '
         'round-tripped, a (signature, decorator stack, call) triple, a construction sequence of wrappers, or a cache history '
         'with at least two calls; calls without any argument on a parameterless function are not counted')
